@@ -8,7 +8,8 @@
     declared [#[size(N)]] is that size.  Field sizes/alignments are the registry's, i.e. those of
     the items the field types name. *)
 From Coq Require Import List NArith Bool.
-From PyxisModel Require Import Base Grammar SemTypes Registry Sem RustLayout LayoutLemmas SemLemmas.
+From PyxisModel Require Import Base Grammar SemTypes Registry Sem RustLayout LayoutLemmas SemLemmas
+     WholeBuild Examples.
 Import ListNotations.
 Local Open Scope N_scope.
 
@@ -32,3 +33,53 @@ Theorem C02_declared_size : forall st owner v ts pending vfs st' regions vt size
   forall t, ts = Some t -> size = t.
 Proof. intros. eapply resolve_regions_size; eauto. Qed.
 Print Assumptions C02_declared_size.
+
+(** ** End to end.  For every accepted build (any schedule, pointer width, list of modules) whose
+    input is [collision_free] (no item is named like the vftable struct generated for a type of the
+    input; decidable, [collision_freeb]; without it the claim is false, open finding F4b), every
+    struct the input declares has, in the FINAL registry, the size and alignment that the
+    Reference's algorithm computes from the sizes and alignments the FINAL registry gives to its
+    field types. *)
+Theorem C02_whole_build : forall order ptr mods st0 st p it0 gd td0 it r,
+  input_state ptr mods = Ok st0 -> collision_free (st_reg st0) ->
+  pyxis_resolve order ptr mods = BOk st ->
+  reg_get (st_reg st0) p = Some it0 -> it_state it0 = Unresolved gd -> gi_inner gd = GIType td0 ->
+  reg_get (st_reg st) p = Some it -> it_state it = Resolved r ->
+  exists td, rs_inner r = IType td /\
+    let fs := map (region_sa (st_reg st)) (td_regions td) in
+    Forall (fun x => r_name x <> None) (td_regions td) /\
+    rs_size r = total 0 fs /\
+    (td_packed td = false ->
+       struct_layout (rs_align r) fs = (prefix_sums 0 fs, rs_size r, rs_align r) /\
+       is_power_of_two (rs_align r) = true) /\
+    (td_packed td = true -> rs_align r = 1 /\ packed_layout fs = (prefix_sums 0 fs, rs_size r, 1)).
+Proof. exact whole_build_layout. Qed.
+Print Assumptions C02_whole_build.
+
+(** every item an accepted build resolved was produced by one attempt on its own description, in a
+    state whose resolved sizes and alignments all survive unchanged into the final registry *)
+Theorem C02_items_come_from_attempts : forall order ptr mods st0 st,
+  input_state ptr mods = Ok st0 -> collision_free (st_reg st0) ->
+  pyxis_resolve order ptr mods = BOk st ->
+  let R0 := st_reg st0 in
+  ext R0 R0 (st_reg st) /\
+  forall p it0 gd it r,
+    reg_get R0 p = Some it0 -> it_state it0 = Unresolved gd ->
+    reg_get (st_reg st) p = Some it -> it_state it = Resolved r ->
+    exists st_mid st_mid',
+      ext R0 R0 (st_reg st_mid) /\ attempt st_mid p gd = (st_mid', Ok r) /\
+      ext R0 (st_reg st_mid) (st_reg st_mid') /\ ext R0 (st_reg st_mid') (st_reg st).
+Proof. exact pyxis_resolve_items. Qed.
+Print Assumptions C02_items_come_from_attempts.
+
+Theorem C02_sizes_never_change : forall R0 R R', ext R0 R R' ->
+  (forall t s, size_of R t = Some s -> size_of R' t = Some s) /\
+  (forall t a, align_of R t = Some a -> align_of R' t = Some a).
+Proof. intros R0 R R' H. split; [apply (size_of_ext _ _ _ H) | apply (align_of_ext _ _ _ H)]. Qed.
+Print Assumptions C02_sizes_never_change.
+
+(** non-vacuity: the input of Examples.v is an input state, collision free, and accepted *)
+Example C02_whole_build_example :
+  exists st0 st, input_state 4 ex_mods = Ok st0 /\ collision_freeb (st_reg st0) = true /\
+                 pyxis_resolve (hook_schedule []) 4 ex_mods = BOk st.
+Proof. vm_compute. eexists; eexists; repeat split; reflexivity. Qed.
